@@ -15,7 +15,7 @@ pub fn prop() -> Prop {
     Prop {
         id: "C06",
         level: "exploration",
-        rule: "complete cross products: integer boundary lattice (0, ±1, ±2, ±7, ±2^k, ±(2^k±1), k<=60, both range ends, two seed-rotated values) squared x 11 operators x 3 syntactic forms (literal op literal; variable op literal and literal op variable inside a function, which selects the fused opcodes); 26 float values squared x 11 operators; 110 neighbouring floats (values 0, 1 and 2 units in the last place around 11 magnitudes, both signs) squared x 6 comparisons x 2 forms, and arithmetic results against the literal next to them; all string pairs of length <=2 over {a,b,é,😀} x 6 comparisons; strings of 3..33 characters (around the machine-word sizes) that differ at one position, at two positions in opposite directions (every pair of positions), by a wide character, or by being a prefix, x 6 comparisons x 2 forms; all 7x7 type pairs x 13 operators; order axioms over all triples of 40-value subsets read through the interpreter. A case is one program; it is non-trivial if it parsed back to the generated tree and the reference model defines its outcome (not Ux); distinct = distinct program texts",
+        rule: "complete cross products: integer boundary lattice (0, ±1, ±2, ±7, ±2^k, ±(2^k±1), k<=60, both range ends, two seed-rotated values) squared x 11 operators x 3 syntactic forms (literal op literal; variable op literal and literal op variable inside a function, which selects the fused opcodes); 26 float values squared x 11 operators; 110 neighbouring floats (values 0, 1 and 2 units in the last place around 11 magnitudes, both signs) squared x 6 comparisons x 2 forms, and arithmetic results against the literal next to them; all string pairs of length <=2 over {a,b,é,😀} x 6 comparisons; strings of 3..33 characters (around the machine-word sizes) that differ at one position, at two positions in opposite directions (every pair of positions), by a wide character, or by being a prefix, x 6 comparisons x 2 forms; all 7x7 type pairs x 13 operators; !(x op y) for every float pair and every type pair x 6 comparisons; order axioms over all triples of 40-value subsets read through the interpreter. A case is one program; it is non-trivial if it parsed back to the generated tree and the reference model defines its outcome (not Ux); distinct = distinct program texts",
         assumptions: &[
             "the reference model's operator table (refint::infix: i64 checked arithmetic within the 61-bit range, Rust f64, str ordering) is the specification",
             "operand values outside the enumerated lattices are not covered",
@@ -401,6 +401,30 @@ fn run(sh: &mut Shard) {
             }
         }
     }
+    // F2c an operator applied to the RESULT of a comparison: !(x op y) for every float pair (NaN and both zeros
+    // included) and every type pair; the negation of a comparison is not the opposite comparison
+    {
+        let fv = float_values();
+        for a in &fv {
+            for b in &fv {
+                for op in CMP_OPS.iter() {
+                    run_case(sh, "negated-comparison", &[es(prefix(Operator::Not, infix(float_expr(*a), op.clone(), float_expr(*b))))]);
+                    run_case(
+                        sh,
+                        "negated-comparison",
+                        &[es(call(func("", &["p", "q"], vec![es(iff(prefix(Operator::Not, infix(id("p"), op.clone(), id("q"))), vec![es(int(1))], Some(vec![es(int(2))])))]), vec![float_expr(*a), float_expr(*b)]))],
+                    );
+                }
+            }
+        }
+        for (_, a) in &tv {
+            for (_, b) in &tv {
+                for op in CMP_OPS.iter() {
+                    run_case(sh, "negated-comparison", &[let_("x", a.clone()), let_("y", b.clone()), es(prefix(Operator::Not, infix(id("x"), op.clone(), id("y"))))]);
+                }
+            }
+        }
+    }
     // F2 floats
     let fv = float_values();
     for a in &fv {
@@ -525,7 +549,7 @@ fn replay(sh: &mut Shard, case: &Value) {
 }
 
 fn vacuity(m: &Merged) -> Option<String> {
-    for fam in ["int-literal", "int-var-lit", "int-lit-var", "float", "string", "string-long", "float-neighbours", "cross-type", "bool-table", "axioms"] {
+    for fam in ["int-literal", "int-var-lit", "int-lit-var", "float", "string", "string-long", "float-neighbours", "negated-comparison", "cross-type", "bool-table", "axioms"] {
         if m.counters.get(&format!("family:{fam}")).copied().unwrap_or(0) == 0 {
             return Some(format!("family {fam} produced no case"));
         }
